@@ -26,6 +26,10 @@ type ZZModelReader struct {
 	MaxEmpty   int  // maximum number of consecutive (0, nil) reads
 	NoEOFData  bool // never return EOF together with rows
 	FailAt     int  // if >= 0: once FailAt rows were delivered, Read fails
+	FailWith   error // the error returned at FailAt (default ZZErrUpstream)
+	PanicAt    int  // if > 0: once PanicAt-1 rows were delivered, Read panics
+	PanicValue interface{}
+	Panicked   bool
 	pos        int
 	empties    int
 	final      error
@@ -46,20 +50,30 @@ func ZZNewModel(tag string, n int) *ZZModelReader {
 func (m *ZZModelReader) Close() error { m.Closed = true; return nil }
 
 // Failed reports whether the injected error was actually returned to a caller.
-func (m *ZZModelReader) Failed() bool { return m.final == ZZErrUpstream }
+func (m *ZZModelReader) Failed() bool { return m.final != nil && m.final != EOF }
 
 func (m *ZZModelReader) Read(ctx context.Context, out frame.Frame) (int, error) {
 	m.Reads++
 	if m.final != nil {
 		return 0, m.final
 	}
+	if m.PanicAt > 0 && m.pos >= m.PanicAt-1 {
+		m.Panicked = true
+		panic(m.PanicValue)
+	}
 	if m.FailAt >= 0 && m.pos >= m.FailAt {
 		m.final = ZZErrUpstream
+		if m.FailWith != nil {
+			m.final = m.FailWith
+		}
 		return 0, m.final
 	}
 	rem := len(m.Keys) - m.pos
 	if m.FailAt >= 0 && m.FailAt-m.pos < rem {
 		rem = m.FailAt - m.pos
+	}
+	if m.PanicAt > 0 && m.PanicAt-1-m.pos < rem {
+		rem = m.PanicAt - 1 - m.pos
 	}
 	max := out.Len()
 	if rem < max {
